@@ -236,6 +236,9 @@ fn build_items(lang: &str, mode: Mode, raw: Vec<RawItem>, out: &mut Vec<Item>) {
                             push(w, Class::Num, out);
                         }
                     }
+                } else if mode == Mode::Dirty && extra[1] < 26 {
+                    // the whole phrase glued into one token (no spaces at all)
+                    push(spell::cardinal(lang, n, &mut ch).concat(), Class::Raw, out);
                 } else {
                     for w in spell::cardinal(lang, n, &mut ch) {
                         push(w, Class::Num, out);
